@@ -176,6 +176,11 @@ pub fn gen_duration(rng: &mut Rng, k: &Knobs) -> f32 {
         *rng.pick(&[f32::from_bits(1), f32::from_bits(2), 1e-40f32, f32::MIN_POSITIVE, 2.0e-38, 3.0e-39])
     } else if k.extreme && rng.chance(0.2) {
         *rng.pick(&[1e-6f32, 1e-3, 1e4, 1e9, 1e15, 1e20]) * (1.0 + rng.unit() as f32)
+    } else if rng.chance(0.015) {
+        // rarely a cycle far shorter than any frame: tens of nanoseconds to tens of microseconds
+        // (valid - the cycle duration only has to be positive - and below what guards against
+        // "empty" cycles tend to assume)
+        *rng.pick(&[5.9604645e-8f32, 5.0e-8, 1.0e-7, 3.0e-7, 1.0e-6, 2.5e-5])
     } else {
         // log-uniform in [0.01, 50]
         (0.01f64 * (5000f64).powf(rng.unit())) as f32
